@@ -484,7 +484,7 @@ theorem map_toNat_ofNat : ∀ (s : List Nat), (∀ y ∈ s, y.isValidChar) → (
 -- characters ----------------------------------------------------------------------------------------------------
 
 section numbers
-open JinjaV.Spec.PyLit (G Derives digitValue digitsValueFrom digitsValue integerValue isHexC isDigitC star_cons_split)
+open JinjaV.Spec.PyLit (G Derives digitValue digitsValueFrom digitsValue integerValue isHexC isDigitC star_cons_split floatDecimal isExpMark countDigits expValue)
 
 theorem cle (a b : Char) : a ≤ b ↔ a.toNat ≤ b.toNat := by
   simp only [Char.le_def, UInt32.le_iff_toNat_le]; exact Iff.rfl
@@ -979,6 +979,342 @@ theorem matchFloat_derives (prev : Option Char) (s m r : Str) (h : matchFloat pr
           exact .altR (Derives.seq (.altL hipd) hxd)
         · cases h
 
+-- floats: the modelled literal_eval against the reference decimal ------------------------------------------------
+
+/-- a non-empty digit run: a digit, then digits and underscores -/
+def IsRun (d : Str) : Prop := ∃ c t, d = c :: t ∧ isDigit c = true ∧ ∀ x ∈ t, x = '_' ∨ isDigit x = true
+
+theorem digitRunF_chars : ∀ (n : Nat) (s : Str), ∀ x ∈ (digitRunF n s).1, x = '_' ∨ isDigit x = true
+  | 0, s => by simp [digitRunF]
+  | n + 1, s => by
+    have hall : ∀ x ∈ s.takeWhile isDigit, isDigit x = true := takeWhile_all isDigit s
+    simp only [digitRunF]
+    split
+    · simp
+    · split
+      · rename_i r2 _
+        split
+        · exact fun x hx => Or.inr (hall x hx)
+        · intro x hx
+          simp only [List.mem_append, List.mem_cons] at hx
+          rcases hx with hx | rfl | hx
+          · exact Or.inr (hall x hx)
+          · exact Or.inl rfl
+          · exact digitRunF_chars n r2 x hx
+      · exact fun x hx => Or.inr (hall x hx)
+
+theorem digitRun_isRun (s : Str) (h : (digitRun s).1.isEmpty = false) : IsRun (digitRun s).1 := by
+  rcases digitRunF_shape s.length s with h0 | ⟨c, t, hd, hc, _⟩
+  · simp [digitRun, h0] at h
+  · refine ⟨c, t, by simpa [digitRun] using hd, hc, ?_⟩
+    intro x hx
+    have := digitRunF_chars s.length s x (by rw [hd]; simp [hx])
+    exact this
+
+theorem matchFrac_shape (s : Str) (f : Str × Str) (h : matchFrac s = some f) : ∃ fp, f.1 = '.' :: fp ∧ IsRun fp := by
+  unfold matchFrac at h
+  split at h
+  · rename_i r2
+    split at h
+    · cases h
+    · rename_i hne
+      cases h
+      exact ⟨_, rfl, digitRun_isRun r2 (by simpa using hne)⟩
+  · cases h
+
+theorem matchExpo_shape (s : Str) (x : Str × Str) (h : matchExpo s = some x) :
+    ∃ e sg xp, x.1 = e :: sg ++ xp ∧ isE e = true ∧ (sg = [] ∨ sg = ['+'] ∨ sg = ['-']) ∧ IsRun xp := by
+  unfold matchExpo at h
+  split at h
+  · rename_i e r2
+    split at h
+    · rename_i he
+      split at h
+      · cases h
+      · rename_i hne
+        cases h
+        refine ⟨e, (takeExpSign r2).1, _, rfl, he, ?_, digitRun_isRun _ (by simpa using hne)⟩
+        unfold takeExpSign
+        split <;> simp
+    · cases h
+  · cases h
+
+/-- the text the float scanner matches: integer digits, then a fraction and/or an exponent -/
+theorem matchFloat_shape (prev : Option Char) (s m r : Str) (h : matchFloat prev s = some (m, r)) :
+    ∃ ip, IsRun ip ∧
+      ((∃ fp e sg xp, m = ip ++ '.' :: fp ++ e :: sg ++ xp ∧ IsRun fp ∧ isE e = true ∧ (sg = [] ∨ sg = ['+'] ∨ sg = ['-']) ∧ IsRun xp) ∨
+       (∃ fp, m = ip ++ '.' :: fp ∧ IsRun fp) ∨
+       (∃ e sg xp, m = ip ++ e :: sg ++ xp ∧ isE e = true ∧ (sg = [] ∨ sg = ['+'] ∨ sg = ['-']) ∧ IsRun xp)) := by
+  unfold matchFloat at h
+  split at h
+  · cases h
+  · split at h
+    · cases h
+    · rename_i hip
+      refine ⟨(digitRun s).1, digitRun_isRun s (by simpa using hip), ?_⟩
+      split at h
+      · rename_i f hf
+        obtain ⟨fp, hfp, hfr⟩ := matchFrac_shape _ f hf
+        split at h
+        · rename_i x hx
+          obtain ⟨e, sg, xp, hxe, he, hsg, hxr⟩ := matchExpo_shape _ x hx
+          cases h
+          exact Or.inl ⟨fp, e, sg, xp, by rw [hfp, hxe]; simp, hfr, he, hsg, hxr⟩
+        · cases h
+          exact Or.inr (Or.inl ⟨fp, by rw [hfp], hfr⟩)
+      · split at h
+        · rename_i x hx
+          obtain ⟨e, sg, xp, hxe, he, hsg, hxr⟩ := matchExpo_shape _ x hx
+          cases h
+          exact Or.inr (Or.inr ⟨e, sg, xp, by rw [hxe]; simp, he, hsg, hxr⟩)
+        · cases h
+
+theorem span_stop (p : Char → Bool) : ∀ (a b : Str), (∀ x ∈ a, p x = true) → (∀ c t, b = c :: t → p c = false) →
+    (a ++ b).takeWhile p = a ∧ (a ++ b).dropWhile p = b
+  | [], b, _, hb => by
+    cases b with
+    | nil => simp
+    | cons c t => simp [hb c t rfl]
+  | x :: a, b, ha, hb => by
+    have hx := ha x (by simp)
+    have ih := span_stop p a b (fun y hy => ha y (by simp [hy])) hb
+    simp [hx, ih.1, ih.2]
+
+theorem isE_not_digit (e : Char) (h : isE e = true) : isDigit e = false ∧ e ≠ '_' ∧ e ≠ '.' := by
+  simp only [isE, Bool.or_eq_true, beq_iff_eq] at h
+  rcases h with rfl | rfl <;> decide
+
+theorem takeExpSign_sign (sg Xd : Str) (hsg : sg = [] ∨ sg = ['+'] ∨ sg = ['-'])
+    (hX : ∃ c t, Xd = c :: t ∧ isDigit c = true) : takeExpSign (sg ++ Xd) = (sg, Xd) := by
+  obtain ⟨c, t, rfl, hc⟩ := hX
+  rcases hsg with rfl | rfl | rfl
+  · have h1 : c ≠ '+' := by intro e; rw [e] at hc; exact absurd hc (by decide)
+    have h2 : c ≠ '-' := by intro e; rw [e] at hc; exact absurd hc (by decide)
+    simp only [List.nil_append]
+    unfold takeExpSign
+    split
+    · rename_i heq; cases heq; exact absurd rfl h1
+    · rename_i heq; cases heq; exact absurd rfl h2
+    · rfl
+  · rfl
+  · rfl
+
+/-- stripped parts: all digits -/
+def AllDigits (s : Str) : Prop := ∀ x ∈ s, isDigit x = true
+
+theorem floatLit_frac_exp (I Fd Xd sg : Str) (e : Char) (hI : AllDigits I) (hI0 : I ≠ []) (hF : AllDigits Fd)
+    (he : isE e = true) (hsg : sg = [] ∨ sg = ['+'] ∨ sg = ['-']) (hX : ∃ c t, Xd = c :: t ∧ isDigit c = true)
+    (x : Nat) (hx : digitsAcc 10 0 Xd = some x) :
+    floatLit (I ++ '.' :: (Fd ++ e :: (sg ++ Xd))) = mkDec I Fd (if sg == ['-'] then - (x : Int) else (x : Int)) := by
+  have h1 := span_stop isDigit I ('.' :: (Fd ++ e :: (sg ++ Xd))) hI (by intro c t h; cases h; decide)
+  have h2 := span_stop isDigit Fd (e :: (sg ++ Xd)) hF (by intro c t h; cases h; exact (isE_not_digit _ he).1)
+  have hIe : I.isEmpty = false := by cases I with | nil => exact absurd rfl hI0 | cons _ _ => rfl
+  have hXe : Xd.isEmpty = false := by obtain ⟨c, t, rfl, _⟩ := hX; rfl
+  simp only [floatLit, h1.1, h1.2, h2.1, h2.2, hIe, Bool.false_and, he, takeExpSign_sign sg Xd hsg hX, hXe, hx]
+  simp
+
+theorem floatLit_frac (I Fd : Str) (hI : AllDigits I) (hI0 : I ≠ []) (hF : AllDigits Fd) :
+    floatLit (I ++ '.' :: Fd) = mkDec I Fd 0 := by
+  have h1 := span_stop isDigit I ('.' :: Fd) hI (by intro c t h; cases h; decide)
+  have h2 := span_stop isDigit Fd [] hF (by intro c t h; cases h)
+  simp only [List.append_nil] at h2
+  have hIe : I.isEmpty = false := by cases I with | nil => exact absurd rfl hI0 | cons _ _ => rfl
+  simp only [floatLit, h1.1, h1.2, h2.1, h2.2, hIe, Bool.false_and]
+  simp
+
+theorem floatLit_exp (I Xd sg : Str) (e : Char) (hI : AllDigits I) (hI0 : I ≠ [])
+    (he : isE e = true) (hsg : sg = [] ∨ sg = ['+'] ∨ sg = ['-']) (hX : ∃ c t, Xd = c :: t ∧ isDigit c = true)
+    (x : Nat) (hx : digitsAcc 10 0 Xd = some x) :
+    floatLit (I ++ e :: (sg ++ Xd)) = mkDec I [] (if sg == ['-'] then - (x : Int) else (x : Int)) := by
+  have h1 := span_stop isDigit I (e :: (sg ++ Xd)) hI (by intro c t h; cases h; exact (isE_not_digit _ he).1)
+  have hIe : I.isEmpty = false := by cases I with | nil => exact absurd rfl hI0 | cons _ _ => rfl
+  have hXe : Xd.isEmpty = false := by obtain ⟨c, t, rfl, _⟩ := hX; rfl
+  have hts := takeExpSign_sign sg Xd hsg hX
+  have he' := he
+  simp only [isE, Bool.or_eq_true, beq_iff_eq] at he'
+  rcases he' with rfl | rfl <;>
+  · have hXne : Xd ≠ [] := by obtain ⟨c, t, rfl, _⟩ := hX; simp
+    simp only [floatLit, h1.1, h1.2, hIe, Bool.false_and]
+    simp [he, hts, hx, hXne]
+
+/-- digits and underscores only -/
+def RunChars (d : Str) : Prop := ∀ x ∈ d, x = '_' ∨ isDigit x = true
+
+theorem runchar_facts (x : Char) (h : x = '_' ∨ isDigit x = true) : isExpMark x = false ∧ x ≠ '.' ∧ x ≠ '+' ∧ x ≠ '-' := by
+  rcases h with rfl | h
+  · decide
+  · have := (isDigit_iff x).1 h
+    refine ⟨?_, ?_, ?_, ?_⟩
+    · simp only [isExpMark, Bool.or_eq_false_iff, beq_eq_false_iff_ne, ne_eq]
+      constructor <;> (intro e; rw [e] at this; revert this; decide)
+    all_goals (intro e; rw [e] at this; revert this; decide)
+
+theorem specExp (sg xp : Str) (hsg : sg = [] ∨ sg = ['+'] ∨ sg = ['-']) (hx : ∃ c t, xp = c :: t ∧ isDigit c = true) :
+    expValue (sg ++ xp) = (if sg == ['-'] then - (digitsValue 10 xp : Int) else (digitsValue 10 xp : Int)) := by
+  obtain ⟨c, t, rfl, hc⟩ := hx
+  have hf := runchar_facts c (Or.inr hc)
+  rcases hsg with rfl | rfl | rfl
+  · simp only [List.nil_append]
+    unfold expValue
+    split
+    · rename_i heq; cases heq; exact absurd rfl hf.2.2.2
+    · rename_i heq; cases heq; exact absurd rfl hf.2.2.1
+    · simp
+  · simp [expValue]
+  · simp [expValue]
+
+theorem floatDecimal_frac_exp (ip fp xp sg : Str) (e : Char) (hi : RunChars ip) (hf : RunChars fp)
+    (he : isE e = true) (hsg : sg = [] ∨ sg = ['+'] ∨ sg = ['-']) (hx : ∃ c t, xp = c :: t ∧ isDigit c = true) :
+    floatDecimal (ip ++ '.' :: (fp ++ e :: (sg ++ xp))) =
+      (digitsValue 10 (ip ++ fp),
+       (if sg == ['-'] then - (digitsValue 10 xp : Int) else (digitsValue 10 xp : Int)) - (countDigits fp : Int)) := by
+  have hassoc : ip ++ '.' :: (fp ++ e :: (sg ++ xp)) = (ip ++ '.' :: fp) ++ e :: (sg ++ xp) := by simp
+  have hm := span_stop (fun c => !isExpMark c) (ip ++ '.' :: fp) (e :: (sg ++ xp))
+    (by intro x hx'
+        simp only [List.mem_append, List.mem_cons] at hx'
+        rcases hx' with h | rfl | h
+        · simp [(runchar_facts x (hi x h)).1]
+        · decide
+        · simp [(runchar_facts x (hf x h)).1])
+    (by intro c t h; cases h; have : isExpMark e = true := he; simp [this])
+  have hd := span_stop (· != '.') ip ('.' :: fp)
+    (by intro x hx'; simpa using (runchar_facts x (hi x hx')).2.1)
+    (by intro c t h; cases h; decide)
+  simp only [floatDecimal, hassoc, hm.1, hm.2, hd.1, hd.2, List.drop_succ_cons, List.drop_zero, specExp sg xp hsg hx]
+
+theorem floatDecimal_frac (ip fp : Str) (hi : RunChars ip) (hf : RunChars fp) :
+    floatDecimal (ip ++ '.' :: fp) = (digitsValue 10 (ip ++ fp), (0 : Int) - (countDigits fp : Int)) := by
+  have hm := span_stop (fun c => !isExpMark c) (ip ++ '.' :: fp) []
+    (by intro x hx'
+        simp only [List.mem_append, List.mem_cons] at hx'
+        rcases hx' with h | rfl | h
+        · simp [(runchar_facts x (hi x h)).1]
+        · decide
+        · simp [(runchar_facts x (hf x h)).1])
+    (by intro c t h; cases h)
+  simp only [List.append_nil] at hm
+  have hd := span_stop (· != '.') ip ('.' :: fp)
+    (by intro x hx'; simpa using (runchar_facts x (hi x hx')).2.1)
+    (by intro c t h; cases h; decide)
+  simp only [floatDecimal, hm.1, hm.2, hd.1, hd.2, List.drop_succ_cons, List.drop_zero, List.drop_nil]
+  simp [expValue, digitsValue, digitsValueFrom]
+
+theorem floatDecimal_exp (ip xp sg : Str) (e : Char) (hi : RunChars ip)
+    (he : isE e = true) (hsg : sg = [] ∨ sg = ['+'] ∨ sg = ['-']) (hx : ∃ c t, xp = c :: t ∧ isDigit c = true) :
+    floatDecimal (ip ++ e :: (sg ++ xp)) =
+      (digitsValue 10 (ip ++ []),
+       (if sg == ['-'] then - (digitsValue 10 xp : Int) else (digitsValue 10 xp : Int)) - (countDigits [] : Int)) := by
+  have hm := span_stop (fun c => !isExpMark c) ip (e :: (sg ++ xp))
+    (by intro x hx'; simp [(runchar_facts x (hi x hx')).1])
+    (by intro c t h; cases h; have : isExpMark e = true := he; simp [this])
+  have hd := span_stop (· != '.') ip []
+    (by intro x hx'; simpa using (runchar_facts x (hi x hx')).2.1)
+    (by intro c t h; cases h)
+  simp only [List.append_nil] at hd
+  simp only [floatDecimal, hm.1, hm.2, hd.1, hd.2, List.drop_succ_cons, List.drop_zero, List.drop_nil, specExp sg xp hsg hx]
+
+theorem run_chars {d : Str} (h : IsRun d) : RunChars d := by
+  obtain ⟨c, t, rfl, hc, ht⟩ := h
+  intro x hx
+  simp only [List.mem_cons] at hx
+  rcases hx with rfl | hx
+  · exact Or.inr hc
+  · exact ht x hx
+
+theorem run_head {d : Str} (h : IsRun d) : ∃ c t, d = c :: t ∧ isDigit c = true := by
+  obtain ⟨c, t, rfl, hc, _⟩ := h; exact ⟨c, t, rfl, hc⟩
+
+theorem digit_ne_underscore {c : Char} (h : isDigit c = true) : c ≠ '_' := by
+  intro e; rw [e] at h; exact absurd h (by decide)
+
+theorem strip_runchars {d : Str} (h : RunChars d) :
+    AllDigits (stripUnderscores d) ∧ countDigits d = (stripUnderscores d).length ∧ ∀ x ∈ d, Good 10 x := by
+  refine ⟨?_, ?_, ?_⟩
+  · intro x hx
+    simp only [stripUnderscores, List.mem_filter, bne_iff_ne, ne_eq] at hx
+    rcases h x hx.1 with e | e
+    · exact absurd e hx.2
+    · exact e
+  · unfold countDigits stripUnderscores
+    congr 1
+    apply List.filter_congr
+    intro x hx
+    rcases h x hx with rfl | e
+    · decide
+    · have : isDigitC x = true := e
+      simp [this, digit_ne_underscore e]
+  · intro x hx
+    rcases h x hx with rfl | e
+    · exact Or.inl rfl
+    · exact good_isDigit x e
+
+theorem strip_run_head {d : Str} (h : IsRun d) : ∃ c t, stripUnderscores d = c :: t ∧ isDigit c = true := by
+  obtain ⟨c, t, rfl, hc, _⟩ := h
+  exact ⟨c, _, strip_cons_ne c t (digit_ne_underscore hc), hc⟩
+
+theorem strip_sign (sg xp : Str) (hsg : sg = [] ∨ sg = ['+'] ∨ sg = ['-']) :
+    stripUnderscores (sg ++ xp) = sg ++ stripUnderscores xp := by
+  rcases hsg with rfl | rfl | rfl <;> simp [stripUnderscores]
+
+theorem strip_append (a b : Str) : stripUnderscores (a ++ b) = stripUnderscores a ++ stripUnderscores b := by
+  simp [stripUnderscores]
+
+theorem mantissa_value (ip fp : Str) (hi : RunChars ip) (hf : RunChars fp) :
+    digitsAcc 10 0 (stripUnderscores ip ++ stripUnderscores fp) = some (digitsValue 10 (ip ++ fp)) := by
+  rw [← strip_append]
+  apply digitsAcc_strip 10 (ip ++ fp) 0
+  intro x hx
+  simp only [List.mem_append] at hx
+  rcases hx with hx | hx
+  · exact (strip_runchars hi).2.2 x hx
+  · exact (strip_runchars hf).2.2 x hx
+
+/-- the modelled `literal_eval` result on a text the float scanner matches is the reference decimal -/
+theorem matchFloat_value (prev : Option Char) (s m r : Str) (h : matchFloat prev s = some (m, r)) :
+    floatValue m = some ⟨(floatDecimal m).1, (floatDecimal m).2⟩ := by
+  obtain ⟨ip, hip, hcases⟩ := matchFloat_shape prev s m r h
+  have hic := run_chars hip
+  have hI := (strip_runchars hic).1
+  have hI0 : stripUnderscores ip ≠ [] := by obtain ⟨c, t, e, _⟩ := strip_run_head hip; rw [e]; simp
+  rcases hcases with ⟨fp, e, sg, xp, rfl, hfp, he, hsg, hxp⟩ | ⟨fp, rfl, hfp⟩ | ⟨e, sg, xp, rfl, he, hsg, hxp⟩
+  · have hfc := run_chars hfp
+    have hxc := run_chars hxp
+    have hen := (isE_not_digit e he).2.1
+    have hnorm : ip ++ '.' :: fp ++ e :: sg ++ xp = ip ++ '.' :: (fp ++ e :: (sg ++ xp)) := by simp
+    have hstrip : stripUnderscores (ip ++ '.' :: (fp ++ e :: (sg ++ xp))) =
+        stripUnderscores ip ++ '.' :: (stripUnderscores fp ++ e :: (sg ++ stripUnderscores xp)) := by
+      rw [strip_append, strip_cons_ne '.' _ (by decide), strip_append, strip_cons_ne e _ hen, strip_sign sg xp hsg]
+    have hxv := digitsAcc_strip 10 xp 0 (strip_runchars hxc).2.2
+    rw [hnorm]
+    unfold floatValue
+    rw [hstrip, floatLit_frac_exp _ _ _ sg e hI hI0 (strip_runchars hfc).1 he hsg (strip_run_head hxp) _ hxv,
+      floatDecimal_frac_exp ip fp xp sg e hic hfc he hsg (run_head hxp)]
+    simp only [mkDec, mantissa_value ip fp hic hfc, (strip_runchars hfc).2.1]
+    rfl
+  · have hfc := run_chars hfp
+    have hstrip : stripUnderscores (ip ++ '.' :: fp) = stripUnderscores ip ++ '.' :: stripUnderscores fp := by
+      rw [strip_append, strip_cons_ne '.' _ (by decide)]
+    unfold floatValue
+    rw [hstrip, floatLit_frac _ _ hI hI0 (strip_runchars hfc).1, floatDecimal_frac ip fp hic hfc]
+    simp only [mkDec, mantissa_value ip fp hic hfc, (strip_runchars hfc).2.1]
+  · have hxc := run_chars hxp
+    have hen := (isE_not_digit e he).2.1
+    have hnorm : ip ++ e :: sg ++ xp = ip ++ e :: (sg ++ xp) := by simp
+    have hstrip : stripUnderscores (ip ++ e :: (sg ++ xp)) = stripUnderscores ip ++ e :: (sg ++ stripUnderscores xp) := by
+      rw [strip_append, strip_cons_ne e _ hen, strip_sign sg xp hsg]
+    have hxv := digitsAcc_strip 10 xp 0 (strip_runchars hxc).2.2
+    have hnil : RunChars [] := by intro x hx; simp at hx
+    have hm := mantissa_value ip [] hic hnil
+    have hs0 : stripUnderscores ([] : Str) = [] := rfl
+    rw [hs0] at hm
+    rw [hnorm]
+    unfold floatValue
+    rw [hstrip, floatLit_exp _ _ sg e hI hI0 he hsg (strip_run_head hxp) _ hxv,
+      floatDecimal_exp ip xp sg e hic he hsg (run_head hxp)]
+    simp only [mkDec, hm]
+    simp [countDigits]
+    rfl
+
 end numbers
 
 
@@ -1071,5 +1407,405 @@ theorem stringRun_strings (vs : List (List Nat)) (rest : List PTok) (hrest : ∀
     · rename_i v r; exact absurd rfl (hrest v r)
     · rfl
   | cons v vs ih => simp [stringRun, ih]
+
+-- the escape decoder against the reference escape table ----------------------------------------------------------
+
+section escapes
+open JinjaV.Spec.PyLit (StrErr simpleEscape? octValue? hexValue? takeHex takeOct escapeItem strValueF strValue)
+
+theorem simpleEscape_cases (c v : Nat) (h : simpleEscape? c = some v) :
+    (c = 92 ∧ v = 92) ∨ (c = 39 ∧ v = 39) ∨ (c = 34 ∧ v = 34) ∨ (c = 97 ∧ v = 7) ∨ (c = 98 ∧ v = 8) ∨
+    (c = 102 ∧ v = 12) ∨ (c = 110 ∧ v = 10) ∨ (c = 114 ∧ v = 13) ∨ (c = 116 ∧ v = 9) ∨ (c = 118 ∧ v = 11) := by
+  unfold simpleEscape? at h
+  repeat' split at h
+  all_goals simp_all
+
+theorem simpleEscape_none (c : Nat) (h : simpleEscape? c = none) :
+    c ≠ 92 ∧ c ≠ 39 ∧ c ≠ 34 ∧ c ≠ 97 ∧ c ≠ 98 ∧ c ≠ 102 ∧ c ≠ 110 ∧ c ≠ 114 ∧ c ≠ 116 ∧ c ≠ 118 := by
+  unfold simpleEscape? at h
+  repeat' split at h
+  all_goals simp_all
+
+theorem stepEsc_simple (c v : Nat) (h : simpleEscape? c = some v) : stepEsc c = .ok ([v], .plain) := by
+  rcases simpleEscape_cases c v h with ⟨rfl, rfl⟩ | ⟨rfl, rfl⟩ | ⟨rfl, rfl⟩ | ⟨rfl, rfl⟩ | ⟨rfl, rfl⟩ | ⟨rfl, rfl⟩ |
+      ⟨rfl, rfl⟩ | ⟨rfl, rfl⟩ | ⟨rfl, rfl⟩ | ⟨rfl, rfl⟩ <;> rfl
+
+theorem octValue_some (c d : Nat) (h : octValue? c = some d) : 48 ≤ c ∧ c ≤ 55 ∧ d = c - 48 := by
+  unfold octValue? at h
+  split at h
+  · rename_i hc
+    simp only [Bool.and_eq_true, decide_eq_true_eq] at hc
+    simp only [Option.some.injEq] at h
+    omega
+  · cases h
+
+theorem octValue_none (c : Nat) (h : octValue? c = none) : isOctCP c = false := by
+  unfold octValue? at h
+  split at h
+  · cases h
+  · rename_i hc; simpa [isOctCP] using hc
+
+theorem stepEsc_octal (c d : Nat) (h : octValue? c = some d) : stepEsc c = .ok ([], .oct 2 d) := by
+  obtain ⟨h1, h2, rfl⟩ := octValue_some c d h
+  have := stepEsc_oct (c - 48) (by omega)
+  rwa [show 48 + (c - 48) = c by omega] at this
+
+theorem stepEsc_other (c : Nat) (h10 : c ≠ 10) (hs : simpleEscape? c = none) (ho : octValue? c = none)
+    (hx : c ≠ 120) (hu : c ≠ 117) (hU : c ≠ 85) (hN : c ≠ 78) : stepEsc c = .ok ([92, c], .plain) := by
+  obtain ⟨a1, a2, a3, a4, a5, a6, a7, a8, a9, a10⟩ := simpleEscape_none c hs
+  have := octValue_none c ho
+  simp [stepEsc, *]
+
+def toSpec : Except DErr (List Nat) → Except StrErr (List Nat)
+  | .ok v => .ok v
+  | .error .syntax => .error .syntax
+  | .error .oom => .error .named
+
+def sprepend (out : List Nat) : Except StrErr (List Nat) → Except StrErr (List Nat)
+  | .ok v => .ok (out ++ v)
+  | .error e => .error e
+
+theorem toSpec_prepend (out : List Nat) (r : Except DErr (List Nat)) : toSpec (prepend out r) = sprepend out (toSpec r) := by
+  cases r with
+  | ok v => rfl
+  | error e => cases e <;> rfl
+
+theorem enc1_small (x : Nat) (h : x < 128) : enc1 x = [x] := by simp [enc1, h]
+
+theorem enc1_big (x : Nat) (h : ¬ x < 128) : ∃ t, enc1 x = 92 :: t := by
+  unfold enc1
+  simp only [h, if_false]
+  split
+  · exact ⟨_, rfl⟩
+  · split
+    · exact ⟨_, rfl⟩
+    · exact ⟨_, rfl⟩
+
+/-- the first byte of an encoded non-empty text: the character itself if ASCII, else a backslash -/
+theorem enc_head (x : Nat) (r : List Nat) :
+    (x < 128 ∧ encodeAscii (x :: r) = x :: encodeAscii r) ∨ (¬ x < 128 ∧ ∃ t, encodeAscii (x :: r) = 92 :: t) := by
+  by_cases h : x < 128
+  · exact Or.inl ⟨h, by rw [encodeAscii_cons, enc1_small x h]; rfl⟩
+  · obtain ⟨t, ht⟩ := enc1_big x h
+    exact Or.inr ⟨h, t ++ encodeAscii r, by rw [encodeAscii_cons, ht]; rfl⟩
+
+theorem oct_fallthrough (k acc y : Nat) (t : List Nat) (h : (decide (k > 0) && isOctCP y) = false) :
+    decodeFrom (.oct k acc) (y :: t) = prepend [acc] (decodeFrom .plain (y :: t)) := by
+  have h1 : step (.oct k acc) y = .ok (acc :: (stepPlain y).1, (stepPlain y).2) := by simp [step, h]
+  have h2 : step .plain y = .ok ((stepPlain y).1, (stepPlain y).2) := rfl
+  rw [decodeFrom_cons_ok t h1, decodeFrom_cons_ok t h2, prepend_prepend]
+  rfl
+
+theorem oct_end (k acc : Nat) : decodeFrom (.oct k acc) [] = prepend [acc] (decodeFrom .plain []) := rfl
+
+theorem decode_oct_state : ∀ (k acc : Nat) (r : List Nat),
+    decodeFrom (.oct k acc) (encodeAscii r) =
+      prepend [(takeOct k acc r).1] (decodeFrom .plain (encodeAscii (takeOct k acc r).2))
+  | 0, acc, r => by
+    have : takeOct 0 acc r = (acc, r) := by cases r <;> rfl
+    rw [this]
+    cases h : encodeAscii r with
+    | nil => exact oct_end 0 acc
+    | cons y t => exact oct_fallthrough 0 acc y t (by simp)
+  | k + 1, acc, [] => by
+    have : takeOct (k + 1) acc [] = (acc, []) := rfl
+    rw [this]; exact oct_end (k + 1) acc
+  | k + 1, acc, x :: r' => by
+    cases ho : octValue? x with
+    | some d =>
+      obtain ⟨h1, h2, hd⟩ := octValue_some x d ho
+      have hto : takeOct (k + 1) acc (x :: r') = takeOct k (acc * 8 + d) r' := by simp [takeOct, ho]
+      have henc : encodeAscii (x :: r') = x :: encodeAscii r' := by
+        rw [encodeAscii_cons, enc1_small x (by omega)]; rfl
+      have hoct : isOctCP x = true := by simp [isOctCP]; omega
+      rw [hto, henc]
+      cases k with
+      | zero =>
+        have hs : step (.oct 1 acc) x = .ok ([acc * 8 + d], .plain) := by simp [step, hoct, hd]
+        have : takeOct 0 (acc * 8 + d) r' = (acc * 8 + d, r') := by cases r' <;> rfl
+        rw [decodeFrom_cons_ok _ hs, this]
+      | succ k =>
+        have hs : step (.oct (k + 1 + 1) acc) x = .ok ([], .oct (k + 1) (acc * 8 + d)) := by simp [step, hoct, hd]
+        rw [decodeFrom_cons_ok _ hs, prepend_nil]
+        exact decode_oct_state (k + 1) (acc * 8 + d) r'
+    | none =>
+      have hto : takeOct (k + 1) acc (x :: r') = (acc, x :: r') := by simp [takeOct, ho]
+      rw [hto]
+      rcases enc_head x r' with ⟨_, he⟩ | ⟨_, t, he⟩
+      · rw [he]; exact oct_fallthrough (k + 1) acc x _ (by simp [octValue_none x ho])
+      · rw [he]; exact oct_fallthrough (k + 1) acc 92 t (by simp [isOctCP])
+
+theorem hexValue_eq (c : Nat) : hexValue? c = hexValCP c := rfl
+
+theorem hexVal_some (x d : Nat) (h : hexValCP x = some d) : x < 128 ∧ x ≠ 92 := by
+  unfold hexValCP at h
+  repeat' split at h
+  all_goals simp_all
+  all_goals omega
+
+theorem hex_bad (n acc y : Nat) (t : List Nat) (h : hexValCP y = none) :
+    decodeFrom (.hex n acc) (y :: t) = .error .syntax := by
+  simp [decodeFrom, step, h]
+
+theorem hex_end (n acc : Nat) : decodeFrom (.hex n acc) [] = .error .syntax := rfl
+
+/-- `r'` is what is left of `r` after dropping characters other than the backslash -/
+def PlainSuffix (r r' : List Nat) : Prop := ∃ pre, r = pre ++ r' ∧ ∀ x ∈ pre, x ≠ 92
+
+theorem PlainSuffix.refl (r : List Nat) : PlainSuffix r r := ⟨[], rfl, by simp⟩
+
+theorem PlainSuffix.cons {x : Nat} {r r' : List Nat} (hx : x ≠ 92) (h : PlainSuffix r r') : PlainSuffix (x :: r) r' := by
+  obtain ⟨pre, rfl, hp⟩ := h
+  exact ⟨x :: pre, rfl, by intro y hy; simp only [List.mem_cons] at hy; rcases hy with rfl | hy; exact hx; exact hp y hy⟩
+
+theorem decode_hex_none : ∀ (n acc : Nat) (r : List Nat), takeHex (n + 1) acc r = none →
+    decodeFrom (.hex (n + 1) acc) (encodeAscii r) = .error .syntax
+  | n, acc, [], _ => hex_end _ _
+  | n, acc, x :: r1, h => by
+    cases hv : hexValCP x with
+    | none =>
+      rcases enc_head x r1 with ⟨_, he⟩ | ⟨_, t, he⟩
+      · rw [he]; exact hex_bad _ _ x _ hv
+      · rw [he]; exact hex_bad _ _ 92 t rfl
+    | some d =>
+      have hx := hexVal_some x d hv
+      have henc : encodeAscii (x :: r1) = x :: encodeAscii r1 := by rw [encodeAscii_cons, enc1_small x hx.1]; rfl
+      simp only [takeHex, hexValue_eq, hv] at h
+      rw [henc]
+      cases n with
+      | zero => simp [takeHex] at h
+      | succ n =>
+        have hs : step (.hex (n + 1 + 1) acc) x = .ok ([], .hex (n + 1) (acc * 16 + d)) := by simp [step, hv]
+        rw [decodeFrom_cons_ok _ hs, prepend_nil]
+        exact decode_hex_none n (acc * 16 + d) r1 h
+
+theorem decode_hex_some : ∀ (n acc : Nat) (r : List Nat) (v : Nat) (r' : List Nat), takeHex (n + 1) acc r = some (v, r') →
+    decodeFrom (.hex (n + 1) acc) (encodeAscii r) =
+      (if v > 0x10ffff then .error .syntax else prepend [v] (decodeFrom .plain (encodeAscii r'))) ∧ PlainSuffix r r'
+  | n, acc, [], v, r', h => by simp [takeHex] at h
+  | n, acc, x :: r1, v, r', h => by
+    cases hv : hexValCP x with
+    | none => simp [takeHex, hexValue_eq, hv] at h
+    | some d =>
+      have hx := hexVal_some x d hv
+      have henc : encodeAscii (x :: r1) = x :: encodeAscii r1 := by rw [encodeAscii_cons, enc1_small x hx.1]; rfl
+      simp only [takeHex, hexValue_eq, hv] at h
+      rw [henc]
+      cases n with
+      | zero =>
+        simp only [takeHex, Option.some.injEq, Prod.mk.injEq] at h
+        obtain ⟨rfl, rfl⟩ := h
+        refine ⟨?_, PlainSuffix.cons hx.2 (PlainSuffix.refl _)⟩
+        by_cases hb : acc * 16 + d > 0x10ffff
+        · simp [decodeFrom, step, hv, hb]
+        · have hs : step (.hex 1 acc) x = .ok ([acc * 16 + d], .plain) := by simp [step, hv, hb]
+          rw [decodeFrom_cons_ok _ hs]; simp [hb]
+      | succ n =>
+        have hs : step (.hex (n + 1 + 1) acc) x = .ok ([], .hex (n + 1) (acc * 16 + d)) := by simp [step, hv]
+        rw [decodeFrom_cons_ok _ hs, prepend_nil]
+        have ih := decode_hex_some n (acc * 16 + d) r1 v r' h
+        exact ⟨ih.1, PlainSuffix.cons hx.2 ih.2⟩
+
+theorem strValueF_esc_ok (n c : Nat) (r out r' : List Nat) (h : escapeItem c r = .ok (out, r')) :
+    strValueF (n + 1) (92 :: c :: r) = sprepend out (strValueF n r') := by
+  simp only [strValueF, h]
+  cases strValueF n r' <;> rfl
+
+theorem strValueF_esc_err (n c : Nat) (r : List Nat) (e : StrErr) (h : escapeItem c r = .error e) :
+    strValueF (n + 1) (92 :: c :: r) = .error e := by
+  simp only [strValueF, h]
+
+theorem strValueF_plain (n c : Nat) (r : List Nat) (hc : c ≠ 92) :
+    strValueF (n + 1) (c :: r) = sprepend [c] (strValueF n r) := by
+  rw [JinjaV.Spec.PyLit.strValueF.eq_5 n c r (by intro h; exact absurd h hc) (by intro c' r' h; exact absurd h hc)]
+  cases strValueF n r <;> rfl
+
+theorem takeOct_suffix : ∀ (k acc : Nat) (r : List Nat), PlainSuffix r (takeOct k acc r).2
+  | 0, acc, r => by cases r <;> exact PlainSuffix.refl _
+  | k + 1, acc, [] => PlainSuffix.refl _
+  | k + 1, acc, x :: r' => by
+    cases ho : octValue? x with
+    | some d =>
+      have : takeOct (k + 1) acc (x :: r') = takeOct k (acc * 8 + d) r' := by simp [takeOct, ho]
+      rw [this]
+      exact PlainSuffix.cons (by have := octValue_some x d ho; omega) (takeOct_suffix k _ r')
+    | none =>
+      have : takeOct (k + 1) acc (x :: r') = (acc, x :: r') := by simp [takeOct, ho]
+      rw [this]; exact PlainSuffix.refl _
+
+theorem f13Free_plain {x : Nat} {r : List Nat} (hx : x ≠ 92) (h : f13Free (x :: r) = true) : f13Free r = true := by
+  unfold f13Free at h
+  split at h
+  · rename_i heq; cases heq
+  · rename_i heq; cases heq; exact absurd rfl hx
+  · rename_i heq; cases heq; exact h
+
+theorem f13Free_suffix {r r' : List Nat} (h : PlainSuffix r r') (hf : f13Free r = true) : f13Free r' = true := by
+  obtain ⟨pre, rfl, hp⟩ := h
+  induction pre with
+  | nil => simpa using hf
+  | cons x pre ih =>
+    exact ih (fun y hy => hp y (by simp [hy])) (f13Free_plain (hp x (by simp)) hf)
+
+theorem suffix_length {r r' : List Nat} (h : PlainSuffix r r') : r'.length ≤ r.length := by
+  obtain ⟨pre, rfl, _⟩ := h; simp
+
+theorem suffix_mem {r r' : List Nat} (h : PlainSuffix r r') : ∀ x ∈ r', x ∈ r := by
+  obtain ⟨pre, rfl, _⟩ := h; intro x hx; simp [hx]
+
+theorem f13Free_esc {c : Nat} {r : List Nat} (h : f13Free (92 :: c :: r) = true) : c < 128 ∧ f13Free r = true := by
+  simpa [f13Free] using h
+def Bounded (b : List Nat) : Prop := ∀ c ∈ b, c < 0x110000
+
+theorem decode_raw (c : Nat) (h92 : c ≠ 92) (hlt : c < 0x110000) (rest : List Nat) :
+    decodeFrom .plain (enc1 c ++ rest) = prepend [c] (decodeFrom .plain rest) := by
+  by_cases h1 : c < 128
+  · have hs : step .plain c = .ok ([c], .plain) := by simp [step, stepPlain, h92]
+    have e1 : enc1 c = [c] := by simp [enc1, h1]
+    rw [e1, List.singleton_append, decodeFrom_cons_ok _ hs]
+  · by_cases h2 : c < 256
+    · have e1 : enc1 c = 92 :: 120 :: hexN 2 c := by simp [enc1, h1, h2]
+      rw [e1]; exact decode_x c rest h2
+    · by_cases h3 : c < 65536
+      · have e1 : enc1 c = 92 :: 117 :: hexN 4 c := by simp [enc1, h1, h2, h3]
+        rw [e1]; exact decode_u c rest h3
+      · have e1 : enc1 c = 92 :: 85 :: hexN 8 c := by simp [enc1, h1, h2, h3]
+        rw [e1]; exact decode_U c rest hlt
+
+theorem sprepend_nil (r : Except StrErr (List Nat)) : sprepend [] r = r := by cases r <;> simp [sprepend]
+
+theorem esc_start (c : Nat) (r : List Nat) (hc : c < 128) :
+    decodeFrom .plain (encodeAscii (92 :: c :: r)) = decodeFrom .esc (c :: encodeAscii r) := by
+  have h1 : step .plain 92 = .ok ([], .esc) := rfl
+  have e : encodeAscii (92 :: c :: r) = 92 :: c :: encodeAscii r := by
+    rw [encodeAscii_cons, encodeAscii_cons, enc1_small 92 (by decide), enc1_small c hc]; rfl
+  rw [e, decodeFrom_cons_ok _ h1, prepend_nil]
+
+theorem esc_step {c : Nat} {out : List Nat} {st : DState} (E : List Nat) (h : stepEsc c = .ok (out, st)) :
+    decodeFrom .esc (c :: E) = prepend out (decodeFrom st E) :=
+  decodeFrom_cons_ok E (show step .esc c = .ok (out, st) from h)
+
+/-- one escape item: the decoder and the reference table agree on `\\ c …`, given that they agree on every text that is left
+    after the item -/
+theorem escape_item_step (n c : Nat) (r : List Nat) (hc : c < 128)
+    (cont : ∀ r', PlainSuffix r r' → toSpec (decodeFrom .plain (encodeAscii r')) = strValueF n r') :
+    toSpec (decodeFrom .plain (encodeAscii (92 :: c :: r))) = strValueF (n + 1) (92 :: c :: r) := by
+  rw [esc_start c r hc]
+  by_cases h10 : c = 10
+  · subst h10
+    have hi : escapeItem 10 r = .ok ([], r) := by simp [escapeItem]
+    rw [strValueF_esc_ok n 10 r [] r hi, esc_step _ (show stepEsc 10 = .ok ([], .plain) from rfl), prepend_nil,
+      sprepend_nil, cont r (PlainSuffix.refl r)]
+  · cases hs : simpleEscape? c with
+    | some v =>
+      have hi : escapeItem c r = .ok ([v], r) := by simp [escapeItem, h10, hs]
+      rw [strValueF_esc_ok n c r [v] r hi, esc_step _ (stepEsc_simple c v hs), toSpec_prepend, cont r (PlainSuffix.refl r)]
+    | none =>
+      cases ho : octValue? c with
+      | some d =>
+        have hi : escapeItem c r = .ok ([(takeOct 2 d r).1], (takeOct 2 d r).2) := by simp [escapeItem, h10, hs, ho]
+        rw [strValueF_esc_ok n c r _ _ hi, esc_step _ (stepEsc_octal c d ho), prepend_nil, decode_oct_state 2 d r,
+          toSpec_prepend, cont _ (takeOct_suffix 2 d r)]
+      | none =>
+        have hexcase : ∀ (w : Nat), (c = 120 ∧ w = 1) ∨ (c = 117 ∧ w = 3) ∨ (c = 85 ∧ w = 7) →
+            stepEsc c = .ok ([], .hex (w + 1) 0) →
+            (takeHex (w + 1) 0 r = none → escapeItem c r = .error .syntax) →
+            (∀ v r', takeHex (w + 1) 0 r = some (v, r') →
+              escapeItem c r = if v > 0x10ffff then .error .syntax else .ok ([v], r')) →
+            toSpec (decodeFrom .esc (c :: encodeAscii r)) = strValueF (n + 1) (92 :: c :: r) := by
+          intro w _ hst hnone hsome
+          rw [esc_step _ hst, prepend_nil]
+          cases ht : takeHex (w + 1) 0 r with
+          | none =>
+            rw [strValueF_esc_err n c r .syntax (hnone ht), decode_hex_none w 0 r ht]; rfl
+          | some p =>
+            obtain ⟨v, r'⟩ := p
+            have hi := hsome v r' ht
+            have hd := decode_hex_some w 0 r v r' ht
+            rw [hd.1]
+            by_cases hv : v > 0x10ffff
+            · simp only [hv, if_true] at hi ⊢
+              rw [strValueF_esc_err n c r .syntax hi]; rfl
+            · simp only [hv, if_false] at hi ⊢
+              rw [strValueF_esc_ok n c r [v] r' hi, toSpec_prepend, cont r' hd.2]
+        by_cases hx : c = 120
+        · subst hx
+          exact hexcase 1 (Or.inl ⟨rfl, rfl⟩) rfl (by intro h; simp [escapeItem, hs, ho, h]) (by intro v r' h; simp [escapeItem, hs, ho, h])
+        · by_cases hu : c = 117
+          · subst hu
+            exact hexcase 3 (Or.inr (Or.inl ⟨rfl, rfl⟩)) rfl (by intro h; simp [escapeItem, hs, ho, h]) (by intro v r' h; simp [escapeItem, hs, ho, h])
+          · by_cases hU : c = 85
+            · subst hU
+              exact hexcase 7 (Or.inr (Or.inr ⟨rfl, rfl⟩)) rfl (by intro h; simp [escapeItem, hs, ho, h]) (by intro v r' h; simp [escapeItem, hs, ho, h])
+            · by_cases hN : c = 78
+              · subst hN
+                have hi : escapeItem 78 r = .error .named := by simp [escapeItem, hs, ho]
+                rw [strValueF_esc_err n 78 r .named hi]
+                simp [decodeFrom, step, stepEsc, isOctCP, toSpec]
+              · have hi : escapeItem c r = .ok ([92, c], r) := by simp [escapeItem, h10, hs, ho, hx, hu, hU, hN]
+                rw [strValueF_esc_ok n c r _ r hi, esc_step _ (stepEsc_other c h10 hs ho hx hu hU hN), toSpec_prepend,
+                  cont r (PlainSuffix.refl r)]
+
+/-- The whole-body agreement: on a body in which no escape-position backslash is directly followed by a non-ASCII
+    code point, `backslashreplace` + `unicode-escape` computes what the reference escape table says. -/
+theorem escape_spec : ∀ (n : Nat) (b : List Nat), b.length < n → f13Free b = true → Bounded b →
+    toSpec (decodeFrom .plain (encodeAscii b)) = strValueF n b
+  | 0, _, h, _, _ => by omega
+  | n + 1, [], _, _, _ => rfl
+  | n + 1, c :: r, hlen, hf, hb => by
+    have hlr : r.length < n := by simp at hlen; omega
+    by_cases hc : c = 92
+    · subst hc
+      cases r with
+      | nil => rfl
+      | cons c' r' =>
+        obtain ⟨hc', hfr⟩ := f13Free_esc hf
+        have hbr : Bounded r' := fun x hx => hb x (by simp [hx])
+        apply escape_item_step n c' r' hc'
+        intro r'' hs
+        exact escape_spec n r'' (by have := suffix_length hs; simp at hlr; omega) (f13Free_suffix hs hfr)
+          (fun x hx => hbr x (suffix_mem hs x hx))
+    · rw [encodeAscii_cons, decode_raw c hc (hb c (by simp)) _, toSpec_prepend, strValueF_plain n c r hc,
+        escape_spec n r hlr (f13Free_plain hc hf) (fun x hx => hb x (by simp [hx]))]
+
+theorem normNl_mem (s : List Nat) : ∀ x ∈ normNl s, x ∈ s ∨ x = 10 := by
+  fun_induction normNl s with
+  | case1 => intro x hx; simp at hx
+  | case2 r ih =>
+    intro x hx
+    simp only [List.mem_cons] at hx
+    rcases hx with rfl | hx
+    · exact Or.inr rfl
+    · rcases ih x hx with h | h
+      · exact Or.inl (by simp [h])
+      · exact Or.inr h
+  | case3 r _ ih =>
+    intro x hx
+    simp only [List.mem_cons] at hx
+    rcases hx with rfl | hx
+    · exact Or.inr rfl
+    · rcases ih x hx with h | h
+      · exact Or.inl (by simp [h])
+      · exact Or.inr h
+  | case4 c r _ _ ih =>
+    intro x hx
+    simp only [List.mem_cons] at hx
+    rcases hx with rfl | hx
+    · exact Or.inl (by simp)
+    · rcases ih x hx with h | h
+      · exact Or.inl (by simp [h])
+      · exact Or.inr h
+
+/-- `wrap`'s string pipeline against the reference escape table, for a whole body -/
+theorem unescape_spec (body : List Nat) (hb : ∀ c ∈ body, c < 0x110000) (hf : f13Free (normNl body) = true) :
+    toSpec (unescapeBody body) = strValue (normNl body) := by
+  unfold unescapeBody decodeEscapes strValue
+  apply escape_spec _ _ (by omega) hf
+  intro x hx
+  rcases normNl_mem body x hx with h | h
+  · exact hb x h
+  · omega
+
+end escapes
 
 end JinjaV.Literal
